@@ -589,6 +589,11 @@ public:
       for (basic_block_label_t prev : prev_nodes) {
         new_pre |= m_iterator->get_post(prev);
       }
+      if (m_assumptions && !m_assumptions->empty()) {
+        // the assumption at the head also holds for the states that
+        // come back through the back edges
+        new_pre = strengthen(head, new_pre);
+      }
       crab::CrabStats::stop("Fixpo.join_predecessors");
       crab::CrabStats::resume("Fixpo.check_fixpoint");
       bool fixpoint_reached = new_pre <= pre;
@@ -623,6 +628,11 @@ public:
       AbstractValue new_pre = start_val;
       for (basic_block_label_t prev : prev_nodes) {
         new_pre |= m_iterator->get_post(prev);
+      }
+      if (m_assumptions && !m_assumptions->empty()) {
+        // the assumption at the head also holds for the states that
+        // come back through the back edges
+        new_pre = strengthen(head, new_pre);
       }
       crab::CrabStats::stop("Fixpo.join_predecessors");
       crab::CrabStats::resume("Fixpo.check_fixpoint");
